@@ -1246,6 +1246,13 @@ class TLSConnection(TLSRecordLayer):
                         "Server responded with invalid Heartbeat extension"):
                     yield result
             self.heartbeat_supported = True
+        ec_point_ext = serverHello.getExtension(
+            ExtensionType.ec_point_formats)
+        if ec_point_ext and not ec_point_ext.formats:
+            for result in self._sendError(
+                    AlertDescription.decode_error,
+                    "Malformed ec_point_formats extension"):
+                yield result
         size_limit_ext = serverHello.getExtension(
             ExtensionType.record_size_limit)
         if size_limit_ext:
